@@ -131,4 +131,17 @@ func WorkerPool.startDispatcher
   requires w != nil && w.Queue != nil && w.PendingTasksCounter != nil && unlocked(w.mutex)
   modifies w.dispatcherChan, chans
   ensures w.dispatcherChan != nil && !closed(w.dispatcherChan)
+
+-- workers: every worker goroutine is counted in ShutdownComplete BEFORE it exists (Add before go), so that a Wait issued
+-- right after Start cannot return while workers are still to come; the worker itself only takes its count back
+func WorkerPool.worker
+  opt thread
+  requires w != nil
+  requires sel(sync.wgcount, addr(w.ShutdownComplete)) >= 1         -- the starter has counted this goroutine
+  modifies everything
+func WorkerPool.startWorkers
+  opt assume-no-overflow
+  requires w != nil
+  modifies everything
+  loop 1 invariant w != nil && (forall x Int :: sel(sync.wgcount, x) >= 0)
 @*/
